@@ -141,6 +141,12 @@ def _as_load(t: ast.AST) -> ast.AST:
     return t
 
 
+# attribute names that are also methods of builtin containers / stdlib objects: a call `x.add(...)` may not be the library's
+_BUILTIN_METHOD_NAMES = {'add', 'get', 'pop', 'update', 'remove', 'clear', 'copy', 'append', 'extend', 'insert', 'index', 'count', 'write', 'read',
+                         'close', 'cancel', 'send', 'sendto', 'set', 'wait', 'put', 'join', 'start', 'run', 'stop', 'items', 'keys', 'values', 'sort',
+                         'discard', 'setdefault', 'encode', 'decode', 'format', 'lower', 'upper', 'split', 'strip', 'result', 'done', 'time', 'name'}
+
+
 class FuncInfo:
     def __init__(self, module: 'Module', cls: Optional['ClassInfo'], node: ast.AST, qual: str) -> None:
         self.module = module
@@ -310,6 +316,67 @@ class Program:
                         r[1].subclasses.append(c)
                     else:
                         c.ext_bases.append(norm(b))
+        self.keyword_calls_normalised = self._positional_calls()
+
+    # ------------------------------------------------------------------ canonical call shape
+    def signature_of_call(self, m: Module, fn: Optional[FuncInfo], c: ast.Call) -> Optional[List[str]]:
+        """Names of the positional-or-keyword parameters the arguments of call `c` bind to (receiver excluded), when
+        the callee is known without type inference: a library class or function by name, a method called on the
+        enclosing method's own first parameter, or a method name that every library class defining it spells with the
+        same parameter list.  None when unknown or when the callee takes *args / **kwargs."""
+        def plain(f: FuncInfo, drop_first: bool) -> Optional[List[str]]:
+            a = f.node.args  # type: ignore[attr-defined]
+            if a.vararg or a.kwarg or a.posonlyargs:
+                return None
+            ps = [x.arg for x in a.args]
+            return ps[1:] if drop_first else ps
+
+        func = c.func
+        if isinstance(func, ast.Name):
+            r = self.resolve_name(m, func.id)
+            if r and r[0] == 'class':
+                init = r[1].find_method('__init__')
+                return plain(init, True) if init is not None else None
+            if r and r[0] == 'func':
+                f = r[1]
+                return plain(f, False) if f.cls is None else None
+            return None
+        if isinstance(func, ast.Attribute):
+            if fn is not None and fn.cls is not None and fn.params and isinstance(func.value, ast.Name) and func.value.id == fn.params[0] and 'staticmethod' not in fn.decorators:
+                t = fn.cls.find_method(func.attr)
+                if t is not None:
+                    return plain(t, 'staticmethod' not in t.decorators)
+            cands = [g for cl in self.classes.values() for n, g in cl.methods.items() if n == func.attr]
+            sigs = {tuple(plain(g, 'staticmethod' not in g.decorators) or ['?']) for g in cands}
+            if cands and len(sigs) == 1 and '?' not in next(iter(sigs)) and func.attr not in _BUILTIN_METHOD_NAMES:
+                return list(next(iter(sigs)))
+        return None
+
+    def _positional_calls(self) -> int:
+        """Keyword arguments that merely continue the positional prefix are moved into it (`f(a, y=b)` -> `f(a, b)` when
+        y is the second parameter), so rules see one shape for a call however its arguments are spelled."""
+        n = 0
+        for m in self.modules.values():
+            owners: List[Tuple[Optional[FuncInfo], ast.AST]] = [(None, m.tree)] + [(f, f.node) for f in m.functions.values()]
+            for fn, root in owners:
+                it = walk_local_ordered(root) if fn is not None else ast.walk(root)
+                for c in it:
+                    if not isinstance(c, ast.Call) or not c.keywords or any(k.arg is None for k in c.keywords) or any(isinstance(a, ast.Starred) for a in c.args):
+                        continue
+                    if fn is None and any(c is x for f2 in m.functions.values() for x in ast.walk(f2.node)):
+                        continue
+                    sig = self.signature_of_call(m, fn, c)
+                    if sig is None:
+                        continue
+                    kw = {k.arg: k for k in c.keywords}
+                    moved = False
+                    while len(c.args) < len(sig) and sig[len(c.args)] in kw:
+                        k = kw.pop(sig[len(c.args)])
+                        c.args.append(k.value)
+                        c.keywords.remove(k)
+                        moved = True
+                    n += 1 if moved else 0
+        return n
 
     def _index_module(self, m: Module) -> None:
         def add_func(node: ast.AST, cls: Optional[ClassInfo], prefix: str) -> None:
